@@ -35,14 +35,15 @@ def main():
     for m in muts:
         if flt and flt not in m["id"] and flt not in " ".join(m["checks"]):
             continue
-        f = REPO / m["file"]
-        src = f.read_text()
-        if src.count(m["old"]) < 1:
+        edits = m.get("edits") or [{"file": m["file"], "old": m["old"], "new": m["new"]}]
+        if any((REPO / e["file"]).read_text().count(e["old"]) < 1 for e in edits):
             print("SKIP %s: pattern not found" % m["id"])
             results.append((m["id"], "pattern-not-found", {}))
             continue
         try:
-            f.write_text(src.replace(m["old"], m["new"], m.get("count", 1)))
+            for e in edits:
+                f = REPO / e["file"]
+                f.write_text(f.read_text().replace(e["old"], e["new"], 1))
             outcome = {}
             for chk in m["checks"]:
                 t0 = time.time()
